@@ -195,6 +195,9 @@ C06_waitPoint(t) == Started(t) => t.ev \in WaitPoints
 \* the SINGLE thing: while the hand waits for a table operation (everyone ready, antes, blinds, moving on) or is
 \* closed, no seat is offered an action (during a betting round the offers are those of the player to act: C04)
 C06_singleThing(t) == (Started(t) /\ t.ev \in (WaitPoints \ {"RoundStarted"})) => \A i \in Seats(t) : t.P[i].allowed = <<>>
+\* ... and during a betting round it DOES say what it is waiting for: the player to act exists and is offered something
+\* (a hand that sits in a betting round with nobody offered anything waits for nothing a driver could do)
+C06_indicates(t) == Betting(t) => (CurOK(t) /\ t.P[t.cur].allowed # <<>>)
 StartAllowed(g) == g.n >= 2 /\ Dealers(g) # {} /\ (\A i \in Seats(g) : g.P[i].bankroll > 0) /\ Len(g.meta.deck) > 0
 C06_start(g, t, o) == (o.op = "Start" /\ ~Started(g)) => (o.ok <=> StartAllowed(g)) /\ (o.ok => Started(t)) /\ (~o.ok => t = g)
 \* the single thing the hand is waiting for, performed: it succeeds and moves the hand on.  For bet and raise "that
@@ -332,7 +335,7 @@ FailedState(t, h2, props) ==
                            \cup N("C01.pots", C01_pots(t)) \cup N("C01.result", C01_result(t)) ELSE {}) \cup
   (IF "C04" \in props THEN N("C04.oneOffered", C04_oneOffered(t)) \cup N("C04.passOnly", C04_passOnly(t)) ELSE {}) \cup
   (IF "C05" \in props THEN N("C05.notLate", C05_notLate(t, h2)) \cup N("C05.fullBoard", C05_fullBoard(t)) ELSE {}) \cup
-  (IF "C06" \in props THEN N("C06.waitPoint", C06_waitPoint(t)) \cup N("C06.singleThing", C06_singleThing(t)) \cup N("C06.result", C06_result(t))
+  (IF "C06" \in props THEN N("C06.waitPoint", C06_waitPoint(t)) \cup N("C06.singleThing", C06_singleThing(t)) \cup N("C06.indicates", C06_indicates(t)) \cup N("C06.result", C06_result(t))
                            \cup N("C06.bounded", C06_bounded(t, h2)) ELSE {}) \cup
   (IF "C11" \in props THEN N("C11.offer", C11_offer(t, h2)) ELSE {}) \cup
   (IF "C12" \in props THEN N("C12.cwIsToMatch", C12_cwIsToMatch(t)) \cup N("C12.bounds", C12_bounds(t))
